@@ -89,14 +89,25 @@ def cases(rng, tier):
             sc["via"], sc["delay0"] = "rel", rng.choice([0.0, -1.0, "td0"])
         if fl == "ts" and "foreign" in (smode, mode) and rng.random() < 0.5:
             sc["registered"] = True
+        if kind == "rel" and "via" not in sc and rng.random() < 0.4:
+            sc["via"] = "abs"  # schedule_absolute, the due instant optionally written in a non-UTC zone
+            if rng.random() < 0.7:
+                sc["tz"] = rng.choice([-11, -5, -1, 2, 9])
+        if fl == "ts" and smode == "foreign" and mode == "foreign":
+            r = rng.random()
+            if r < 0.25:
+                sc["busy"] = True      # the loop thread is held in a slow callback while the user schedules and disposes
+            elif r < 0.5:
+                sc["handover"] = True  # the loop was first run (and disposed on) by the thread that now is a foreign thread
         k = fw.key(sc)
         if k not in base:
             base[k] = A.run_case(dict(sc, first=0, pre=[]))["steps"]
         S = max(2, base[k])
+        nt = 3 if sc.get("handover") else 2
         npre = rng.choice([0, 1, 2, 2, 3])
         steps = sorted(rng.sample(range(S), min(npre, S)))
-        sc["first"] = rng.randrange(2)
-        sc["pre"] = [[s, rng.randrange(2)] for s in steps]
+        sc["first"] = 0 if sc.get("handover") else rng.randrange(2)
+        sc["pre"] = [[s, rng.randrange(nt)] for s in steps]
         yield sc
 
 
@@ -154,8 +165,8 @@ def verdict(case, out):
     if len(out["starts"]) > 1:
         return ("bad", f"action started {len(out['starts'])} times")
     for s in out["starts"]:
-        if s["thread"] != 0:
-            return ("bad", f"action ran on thread {s['thread']}, not on the loop thread")
+        if not s.get("on_loop", s["thread"] == 0):
+            return ("bad", f"action ran on thread {s['thread']}, not on the thread that runs the loop")
         if s.get("inside_schedule_call"):
             return ("bad", "action ran synchronously inside the schedule call instead of being posted to the loop")
         if case["kind"] == "rel" and s["clock"] < out["sched_clock"] + out["delay"]:
@@ -223,11 +234,19 @@ def extra(rng, tier):
         if fl == "ts" and kind == "rel" and mode == "foreign":  # the disposing thread has the loop registered as its current loop
             for g in (0, 1):
                 scs.append(dict(scenario(fl, kind, smode, mode, 2, g), registered=True))
+        if kind == "rel":  # schedule_absolute with the due instant written in non-UTC zones
+            scs.append(dict(scenario(fl, kind, smode, mode, 2, 1 if not (mode == "notRunning" and smode == "pre") else 0), via="abs", tz=-5))
+            scs.append(dict(scenario(fl, kind, smode, mode, 2, 0), via="abs", tz=9))
+        if fl == "ts" and smode == "foreign" and mode == "foreign":
+            scs.append(dict(scenario(fl, kind, smode, mode, 2, 0), busy=True))
+            for g in (0, 1):
+                scs.append(dict(scenario(fl, kind, smode, mode, 2, g), handover=True))
     # the two threads only interact when another thread disposes while the loop runs: deep enumeration there;
     # for dispose-on-loop / loop-not-running the user thread merely posts callbacks (single preemptions suffice)
     foreign = [sc for sc in scs if sc["mode"] == "foreign"]
     others = [sc for sc in scs if sc["mode"] != "foreign"]
-    b1, i1 = X.plan(foreign, A.run_case, lambda sc: 2, [["op"]] if quick else ["all", ["op"]], batch_runs=400)
+    b1, i1 = X.plan(foreign, A.run_case, lambda sc: 2, [["op"]] if quick else ["all", ["op"]], batch_runs=400,
+                    firsts=None)
     b2, i2 = X.plan(others, A.run_case, lambda sc: 2, [] if quick else [["op"]], batch_runs=400)
     batches, info = b1 + b2, i1 + i2
     res = fw.pmap("props.C33", "explore_batch", batches, chunk=1)
